@@ -67,7 +67,7 @@ class Cfg:
         self.terminating_with_funcs = False
         self.call_bias = 0  # extra percentage of statements that are calls
         self.tail_call_bias = 0  # percentage of functions that end in a statement call
-        self.nested_defs = True
+        self.nested_defs = False  # nested function definitions: open finding F-D36 (register clash)
         self.d5_args = False  # pass bare names of writable globals as arguments (open finding F-D5 shape):
         #                       only for oracles that do not compare with the source interpreter
         self.__dict__.update(kw)
@@ -299,11 +299,11 @@ class ProgGen:
                 else:
                     v = self.fresh()
                     e = self.expr(vars_)
-                    if e in vars_ and e not in self.frozen:
-                        e = f"({e} + 0)"  # D5: never alias a variable that may be written later
+                    if e in vars_:
+                        # never a bare copy: the alias shares the source's register and may be written
+                        # later (F-D5) or outlive the source's last use (F-D5, second witness)
+                        e = f"({e} + 0)"
                         self.features.add("excl-D5-copy")
-                    elif e in vars_:
-                        self.features.add("bare-copy-of-frozen")
                     out.append(pad + f"{v} = {e}")
                     if self.chance(50):
                         # stays single-assignment (candidate for constant propagation / aliasing)
